@@ -96,7 +96,7 @@ func purityCheck(s *Scn) {
 		s.In.Arguments = spare
 	}
 	verif.WatchWrites(s.In, "input")
-	verif.WatchWrites(s.Fn, "function-object")
+	verif.WatchObject(s.Fn, "function-object")
 	s.Run()
 	verif.WatchOn(false)
 	out1, err1 := s.Out, s.Err
@@ -112,8 +112,7 @@ func purityCheck(s *Scn) {
 	}
 	verif.Assert("same-output", outputEq(out1, out2))
 	verif.Assert("same-writes", logsEq(log1, s.W.Log))
-	verif.Reach("success", err1 == nil)
-	verif.Reach("rejected", err1 != nil)
+	verif.Reach("ran-twice", true)
 	verif.ObserveBool("ok", err1 == nil)
 }
 
@@ -200,7 +199,10 @@ func pricingCheck(s *Scn) {
 	fwd, _ := forwarded(s)
 	consumed := s.In.GasProvided - s.Out.GasRemaining - fwd
 	funded := s.In.GasProvided >= charge
-	verif.Assert("charged-by-own-entry", verif.Or(!funded, consumed == charge))
+	// finding F12: ClaimDeveloperRewards called asynchronously by a contract on the same shard moves the
+	// remaining gas into a callback transfer and then drops the output accounts: all gas is consumed
+	f12 := verif.And(s.Name == "ClaimDeveloperRewards", s.Snd != nil, s.In.CallType == vmcommon.AsynchronousCall, allEq(s.In.CallerAddr, 0, 8, 0))
+	verif.AssertExcept("charged-by-own-entry", verif.Or(!funded, consumed == charge), "F12", f12)
 	verif.Reach("funded-success", funded)
 	verif.ObserveU64("consumed", consumed)
 }
